@@ -249,6 +249,22 @@ def public_path(spec, rng, acc):
                         if s_ != {ident2}:
                             acc.violation("encoded-identifier-mismatch", f"{fmt}: a copy ({way}) of a received message re-addressed to {(p2, d.pgn, s2, d2)} is encoded as "
                                           f"{[hex(x) for x in s_]}, expected {ident2:#x}", {"kind": "public_encode", "fmt": fmt, "definition": d.id, "prio": p2, "src": s2, "dst": d2, "way": way})
+                # first a message with this very header that the encoder has to refuse (a field far out of range, or missing): the
+                # refusal leaves nothing behind - the valid message with the same header that follows goes out under its own identifier
+                if acc.evaluations % 2 == 0:
+                    bad_ = _copy.deepcopy(outs["actisense"])
+                    bad_.priority, bad_.source, bad_.destination = prio, src, dst
+                    tgt_ = [x for x in bad_.fields if not str(x.id).startswith("reserved")]
+                    if tgt_:
+                        if acc.evaluations % 4 == 0:
+                            tgt_[-1].value = tgt_[-1].raw_value = 10 ** 30
+                        else:
+                            bad_.fields = [x for x in bad_.fields if x is not tgt_[0]]
+                        for fn_ in (enc.encode_ebyte, enc.encode_usb, enc.encode_yacht_devices)[acc.evaluations % 3:][:1]:
+                            try:
+                                fn_(bad_)
+                            except Exception:  # noqa: BLE001
+                                acc.count("messages_refused_by_the_encoder_before_a_valid_one_with_the_same_header")
                 m = _copy.deepcopy(outs["actisense"])
                 m.priority, m.source, m.destination = prio, src, dst     # non-canonical for PDU2 when dst != 255
                 try:
